@@ -5,7 +5,7 @@ A stratified run is still one simulated run of the same engine: a JSON op list
 executed on real PyFVTool objects under the same invariants, shrinkable and
 replayable like any other.  What differs is where the op list comes from: the
 run index is decoded (mixed radix) into one cell of a small product space --
-e.g. (grid class) x (a history of <= k letters over a 28-letter edit / solve /
+e.g. (grid class) x (a history of <= k letters over a 30-letter edit / solve /
 fault alphabet) -- and everything the stratum leaves open (mesh spacing, which
 side is edited, coefficient values) is drawn from a PRNG seeded by the index.
 Random search visits short histories and operator x operand matrices only by
@@ -130,6 +130,7 @@ HIST_LETTERS = (
     "solve_B", "explicit_A", "explicit_B", "copy_A", "newvar_shared",
     "solve_A_solver_raises", "solve_A_solver_scribbles", "solve_B_unknown_term",
     "operator_A", "untracked_then_remedy", "utility_fails_half_way",
+    "apply_A_alloc_fails", "solve_A_alloc_fails",
 )
 NL = len(HIST_LETTERS)
 
@@ -267,6 +268,14 @@ def _hist_letter(st, name):
         return _solve_ops(st, st.A, mode="ext_scribble_raise")
     if name == "solve_B_unknown_term":
         return _solve_ops(st, st.B, bad="ndim3")
+    if name == "apply_A_alloc_fails":
+        return [{"k": "apply", "a": {"v": st.A, "inner": rng.choice(("alloc_cache", "alloc_ghost")),
+                                     "nth": 1}}]
+    if name == "solve_A_alloc_fails":
+        ops = _solve_ops(st, st.A)
+        ops[-1]["a"].update({"inner": rng.choice(("alloc_cache", "alloc_cache", "alloc_ghost")),
+                             "nth": rng.choice((1, 2))})
+        return ops
     if name == "utility_fails_half_way":
         # documented ValueError after a and b were already overwritten
         return [{"k": "bc_util", "a": dict(tgt, side=side, fn=rng.choice(("fixedValue", "fixedGradient")),
